@@ -8,6 +8,7 @@
    registry).  The facts that decide between "TextXError" and "Crash" come from the record
    `cfg`, generated from the current source (Gen/SrcFront.v). *)
 From TxV Require Import Core.Base Model.FrontDefs.
+From TxV Require Model.Kinds.   (* C03's model of the rule-kind fixpoint; not imported: its names stay qualified *)
 
 (* ---------------------------------------------------------------- abstract syntax *)
 Inductive smatch := SStr (s : list N) | SRe (s : list N).      (* text between the quotes / slashes *)
@@ -35,19 +36,39 @@ Record rule := { r_name : list N; r_params : option (list (list N * option (list
 
 Record tree := { t_stmts : list stmt; t_rules : list rule }.
 
-Inductive ginput := GSyntaxError | GTree (t : tree).
+(* what parser.parse(language_def) did: raised e (NoMatch for a text that is not a grammar), or returned a tree *)
+Inductive ginput := GParseRaises (e : exc) | GTree (t : tree).
 
 (* ---------------------------------------------------------------- oracles *)
-Inductive dec_res := DecOk | DecIndexError | DecUnicodeError.
+(* Each oracle answers with the TYPE of the exception raised (None / a value: no exception). *)
 Inductive ext_res :=
-| ExtNotRegistered                   (* metamodel_for_language raises TextXRegistrationError *)
-| ExtMissing | ExtFound              (* a TextXMetaModel: KeyError / class *)
+| ExtLangRaises (e : exc)            (* metamodel_for_language(lang) raises e (TextXRegistrationError when not registered) *)
+| ExtMissing | ExtFound              (* a TextXMetaModel: its __getitem__ raises KeyError / returns the class *)
 | ExtBuiltin (found : bool).         (* the built-in TextXMetaMetaModel; is the name in its meta-model *)
 Record oracles := {
-  o_regex : list N -> bool;                       (* RegExMatch(s).compile() succeeds *)
-  o_decode : list N -> dec_res;                   (* the `try` body of visit_str_match on this text *)
+  o_regex : list N -> option exc;                 (* RegExMatch(s).compile() *)
+  o_decode : list N -> option exc;                (* the `try` body of visit_str_match on this text *)
   o_ext : list N -> list N -> ext_res             (* language name, class name *)
 }.
+
+(* What the theorems assume about the world outside textX (the harness checks it on every case):
+   re.compile raises only subclasses of Exception; the slicing + codecs.decode(.., "unicode-escape") of
+   visit_str_match raise only IndexError / UnicodeDecodeError; the registry raises only TextXErrors. *)
+Definition oracle_wf (o : oracles) : Prop :=
+  (forall s e, o_regex o s = Some e -> In n_Exception (x_mro e)) /\
+  (forall s e, o_decode o s = Some e -> In n_UnicodeDecodeError (x_mro e) \/ In n_IndexError (x_mro e)) /\
+  (forall l n e, o_ext o l n = ExtLangRaises e -> In n_TextXError (x_mro e)).
+
+(* the TextX class of a TextXError subclass, by name *)
+Definition class_of_exc (e : exc) : txclass :=
+  if mem_str n_TextXSyntaxError (x_mro e) then CSyntax
+  else if mem_str n_TextXSemanticError (x_mro e) then CSemantic
+  else if mem_str n_TextXRegistrationError (x_mro e) then CRegistration
+  else CPlain.
+
+(* an exception that propagates out of metamodel_from_str *)
+Definition propagate (e : exc) (w : why) : outcome :=
+  if mem_str n_TextXError (x_mro e) then TxErr (class_of_exc e) w else Crash (x_name e).
 
 (* ---------------------------------------------------------------- names *)
 Definition s_skipws : list N := [115;107;105;112;119;115]%N.
@@ -65,7 +86,7 @@ Definition c_dot : N := 46%N.
 (* The visitor works bottom-up, left to right and stops at the first exception.  `events`
    lists, in that order, the visit methods that can raise, each with what it looks at. *)
 Inductive event :=
-| EvRuleName                                           (* visit_rule_name: a fresh class becomes current *)
+| EvRuleName (n : list N)                              (* visit_rule_name: a fresh class becomes current *)
 | EvParams (ps : list (list N * option (list N)))      (* visit_rule_params *)
 | EvStr (s : list N)                                   (* visit_str_match *)
 | EvRe (s : list N)                                    (* visit_re_match *)
@@ -221,7 +242,7 @@ Definition boolmany_body (c : choice) : bool :=
   existsb (fun a => match first_op a ops with Some OpOpt => true | _ => false end) many.
 
 Definition ev_rule (r : rule) : list event :=
-  [EvRuleName]
+  [EvRuleName (r_name r)]
   ++ match r_params r with Some ps => [EvParams ps] | None => [] end
   ++ flat_map (flat_map ev_rexpr) (r_body r)
   ++ [EvRule (w_boolrep (walk_body (r_body r))) (boolmany_body (r_body r))].
@@ -231,7 +252,7 @@ Definition events (t : tree) : list event := flat_map ev_rule (t_rules t).
 (* the statements come before the rules: visit_import_stm -> metamodel._new_import asserts that the
    grammar comes from a file; visit_reference_stm only fills referenced_languages *)
 Definition visit_stmts (ss : list stmt) : outcome :=
-  if existsb (fun s => match s with SImport => true | _ => false end) ss then Crash KAssertion else Ok.
+  if existsb (fun s => match s with SImport => true | _ => false end) ss then Crash n_AssertionError else Ok.
 
 (* ---- the individual visit methods *)
 Inductive pvalue := PTrue | PFalse | PStr (s : list N).
@@ -254,7 +275,7 @@ Definition check_param (c : cfg) (p : list N * pvalue) : outcome :=
   else if str_eqb n s_ws && negb (is_str v) then
     match c_ws_guard c with
     | Some cl => TxErr cl WWsParam
-    | None => Crash KType                          (* "\\" in True *)
+    | None => Crash n_TypeError                    (* "\\" in True *)
     end
   else Ok.
 
@@ -264,19 +285,18 @@ Fixpoint check_params (c : cfg) (ps : list (list N * option (list N))) : outcome
   | p :: ps' => match check_param c (norm_param p) with Ok => check_params c ps' | o => o end
   end.
 
-(* a try/except whose body raised the exception in question *)
-Definition handled (h : handler) (w : why) (uncaught in_handler : crash) : outcome :=
-  if h_catches h then (if h_body_safe h then TxErr (h_raises h) w else Crash in_handler)
-  else Crash uncaught.
+Definition out_of (d : dres) : outcome := match d with DSwallowed => Ok | DOut o => o end.
 
 Definition visit_re_match (c : cfg) (o : oracles) (s : list N) : outcome :=
-  if o_regex o s then Ok else handled (c_re_handler c) WRegex KRe KType.
+  match o_regex o s with
+  | None => Ok
+  | Some e => out_of (dispatch (c_re_clauses c) e WRegex)
+  end.
 
 Definition visit_str_match (c : cfg) (o : oracles) (s : list N) : outcome :=
   match o_decode o s with
-  | DecOk => Ok
-  | DecIndexError => Ok                              (* except IndexError: to_match = "" *)
-  | DecUnicodeError => handled (c_str_handler c) WEscape KUnicode KUnicode
+  | None => Ok
+  | Some e => out_of (dispatch (c_str_clauses c) e WEscape)      (* except IndexError: to_match = "" *)
   end.
 
 Definition visit_obj_ref (c : cfg) (cls : list N) : outcome :=
@@ -285,7 +305,7 @@ Definition visit_obj_ref (c : cfg) (cls : list N) : outcome :=
 
 Definition visit_repeatable_expr (c : cfg) (op : repop) (has_mods on_ref : bool) : outcome :=
   match op with
-  | RHash => if on_ref && negb (c_ugroup_guard c) then Crash KAttribute else Ok
+  | RHash => if on_ref && negb (c_ugroup_guard c) then Crash n_AttributeError else Ok
   | ROpt => if has_mods then TxErr CSyntax WOptMods else Ok
   | _ => Ok
   end.
@@ -295,27 +315,45 @@ Definition visit_assignment (attrs : list (list N)) (a : list N) (op : aop) (has
   else if has_mods && match op with OpOpt | OpEq => true | _ => false end then TxErr CSyntax WAsgMods
   else Ok.
 
-(* state of the first pass: the attribute names of the class under construction *)
-Definition step (c : cfg) (o : oracles) (attrs : list (list N)) (e : event) : list (list N) * outcome :=
+(* state of the first pass: the attribute names of the class under construction and
+   metamodel._used_rule_names_for_user_classes *)
+Record fst_state := { s_attrs : list (list N); s_used : list (list N) }.
+
+(* visit_rule_name with user classes given as `classes=[...]` (their names are `user`) *)
+Definition visit_rule_name (c : cfg) (user : list (list N)) (st : fst_state) (n : list N) : fst_state * outcome :=
+  if mem_str n user then
+    if mem_str n (s_used st) then (st, TxErr (c_user_redef_cls c) WUserRedef)
+    else ({| s_attrs := []; s_used := n :: s_used st |}, Ok)
+  else ({| s_attrs := []; s_used := s_used st |}, Ok).
+
+Definition step (c : cfg) (o : oracles) (user : list (list N)) (st : fst_state) (e : event) : fst_state * outcome :=
+  let attrs := s_attrs st in
   match e with
-  | EvRuleName => ([], Ok)
-  | EvParams ps => (attrs, check_params c ps)
-  | EvStr s => (attrs, visit_str_match c o s)
-  | EvRe s => (attrs, visit_re_match c o s)
-  | EvObjRef cls => (attrs, visit_obj_ref c cls)
-  | EvRepeat op hm onr => (attrs, visit_repeatable_expr c op hm onr)
-  | EvAssign a op hm => (if mem_str a attrs then attrs else attrs ++ [a], visit_assignment attrs a op hm)
-  | EvRule br bm => (attrs, if br then TxErr CSemantic WBoolRep
-                              else if bm then match c_boolmany_check c with Some cl => TxErr cl WBoolMany | None => Ok end
-                              else Ok)
+  | EvRuleName n => visit_rule_name c user st n
+  | EvParams ps => (st, check_params c ps)
+  | EvStr s => (st, visit_str_match c o s)
+  | EvRe s => (st, visit_re_match c o s)
+  | EvObjRef cls => (st, visit_obj_ref c cls)
+  | EvRepeat op hm onr => (st, visit_repeatable_expr c op hm onr)
+  | EvAssign a op hm => ({| s_attrs := if mem_str a attrs then attrs else attrs ++ [a]; s_used := s_used st |},
+                         visit_assignment attrs a op hm)
+  | EvRule br bm => (st, if br then TxErr CSemantic WBoolRep
+                         else if bm then match c_boolmany_check c with Some cl => TxErr cl WBoolMany | None => Ok end
+                         else Ok)
   end.
 
-Fixpoint run_events (c : cfg) (o : oracles) (attrs : list (list N)) (es : list event) : outcome :=
+Fixpoint run_events (c : cfg) (o : oracles) (user : list (list N)) (st : fst_state) (es : list event) : outcome :=
   match es with
   | [] => Ok
-  | e :: es' => let '(attrs', r) := step c o attrs e in
-                match r with Ok => run_events c o attrs' es' | _ => r end
+  | e :: es' => let '(st', r) := step c o user st e in
+                match r with Ok => run_events c o user st' es' | _ => r end
   end.
+
+Definition init_state : fst_state := {| s_attrs := []; s_used := [] |}.
+
+(* metamodel.validate_user_classes, after language_from_str: every user class must have been used by a rule *)
+Definition validate_user_classes (c : cfg) (user : list (list N)) (rs : list rule) : outcome :=
+  if forallb (fun u => mem_str u (map r_name rs)) user then Ok else TxErr (c_user_unused_cls c) WUserUnused.
 
 (* ---------------------------------------------------------------- second pass: _resolve_rule_refs *)
 (* The namespace of a grammar given as a string: a later definition of a name replaces the
@@ -376,10 +414,10 @@ Definition qualified (c : cfg) (o : oracles) (ss : list stmt) (ns nm : list N) :
   match lang_of ns ss with
   | Some l =>
       match o_ext o l nm with
-      | ExtNotRegistered => QErr (TxErr CRegistration WRegistration)
+      | ExtLangRaises e => QErr (propagate e WRegistration)
       | ExtMissing => QMissing
       | ExtFound => QFound true
-      | ExtBuiltin found => if c_mmm_getitem c then (if found then QFound true else QMissing) else QErr (Crash KType)
+      | ExtBuiltin found => if c_mmm_getitem c then (if found then QFound true else QMissing) else QErr (Crash n_TypeError)
       end
   | None => if str_eqb ns s_base && mem_str nm (c_base_names c) then QFound false else QMissing   (* self.namespaces[ns][nm] *)
   end.
@@ -392,7 +430,10 @@ Definition lookup_rule (c : cfg) (o : oracles) (t : tree) (n : list N) : lookup_
   | Some (ns, nm) =>
       match qualified c o (t_stmts t) ns nm with
       | QFound _ => LReal
-      | QMissing => if c_contains_catches c then LNone else LErr (Crash KKey)
+      | QMissing => match dispatch (c_contains_clauses c) exc_KeyError WRuleRef with
+                    | DSwallowed => LNone                  (* except KeyError: return False *)
+                    | DOut e => LErr e
+                    end
       | QErr e => LErr e                                   (* not a KeyError: leaves __contains__ *)
       end
   | None =>
@@ -406,7 +447,7 @@ Definition lookup_rule (c : cfg) (o : oracles) (t : tree) (n : list N) : lookup_
    recursion budget (exhausting it is RecursionError). *)
 Fixpoint follow (c : cfg) (o : oracles) (t : tree) (fuel : nat) (chain : list (list N)) (n : list N) : outcome :=
   match fuel with
-  | O => Crash KRecursion
+  | O => Crash n_RecursionError
   | S f =>
       match lookup_rule c o t n with
       | LNone => TxErr CSemantic WRuleRef                        (* Unexisting rule *)
@@ -451,6 +492,8 @@ Definition all_refs (rs : list rule) : list (list N) :=
   | r0 :: _ => refs_rule r0 ++ flat_map refs_rule (effective rs)
   end.
 
+Definition seq_out (a : outcome) (b : outcome) : outcome := match a with Ok => b | _ => a end.
+
 Fixpoint first_error (l : list outcome) : outcome :=
   match l with
   | [] => Ok
@@ -486,7 +529,7 @@ Fixpoint ruletype_target (c : cfg) (o : oracles) (t : tree) (fuel : nat) (r : ru
               | QFound true =>
                   match last_def nm (t_rules t) with
                   | Some _ => Ok
-                  | None => if mem_str nm (c_base_names c) then Ok else Crash KKey
+                  | None => if mem_str nm (c_base_names c) then Ok else Crash n_KeyError
                   end
               | _ => Ok
               end
@@ -495,9 +538,83 @@ Fixpoint ruletype_target (c : cfg) (o : oracles) (t : tree) (fuel : nat) (r : ru
       end
   end.
 
+(* The multi-pass fixpoint itself (`while has_change[0]` over _determine_rule_type / _has_nonmatch_ref /
+   _add_reffered_classes) is C03's model Model/Kinds.v, run on the grammar as it looks after _resolve_rule_refs:
+   rules = the classes of the namespace followed by the __base__ classes, references by index, alias rules
+   resolved to the rule whose expression they share.  Its `None` = the loop never ends. *)
+Fixpoint index_of (n : list N) (l : list (list N)) : option nat :=
+  match l with
+  | [] => None
+  | x :: l' => if str_eqb n x then Some O else match index_of n l' with Some k => Some (S k) | None => None end
+  end.
+
+Definition kinds_names (c : cfg) (t : tree) : list (list N) := map r_name (effective (t_rules t)) ++ c_base_names c.
+
+Definition kcollapse (mk : list Kinds.expr -> Kinds.expr) (l : list Kinds.expr) : Kinds.expr :=
+  match l with [x] => x | _ => mk l end.
+Definition kwrap (p : bool) (x : Kinds.expr) : Kinds.expr := if p then Kinds.Seq [x] else x.
+Definition knodes (x : Kinds.expr) : list Kinds.expr :=
+  match x with
+  | Kinds.Term => []
+  | Kinds.Ref _ => [x]
+  | Kinds.Seq es => es
+  | Kinds.Choice es => es
+  | Kinds.Opt e => [e]
+  | Kinds.Plus e => [e]
+  end.
+
+Fixpoint kx_expr (names : list (list N)) (e : expr) : Kinds.expr :=
+  match e with
+  | EAsg _ _ _ _ => Kinds.Term            (* only walked in rules without assignments *)
+  | EMatch p _ => kwrap p Kinds.Term
+  | ERef p n => kwrap p (match index_of n names with Some k => Kinds.Ref k | None => Kinds.Term end)
+  | EGroup p c => kwrap p (kcollapse Kinds.Choice (map (fun s => kcollapse Kinds.Seq (map (kx_rexpr names) s)) c))
+  end
+with kx_rexpr (names : list (list N)) (r : rexpr) : Kinds.expr :=
+  match r with
+  | RX e None _ => kx_expr names e
+  | RX e (Some (ROpt, _)) _ => Kinds.Opt (kx_expr names e)
+  | RX e (Some (RStar, _)) _ => Kinds.Opt (kx_expr names e)
+  | RX e (Some (RPlus, _)) _ => Kinds.Plus (kx_expr names e)
+  | RX e (Some (RHash, _)) _ => Kinds.Seq (knodes (kx_expr names e))
+  end.
+
+(* the rule an alias rule finally shares its expression with *)
+Fixpoint alias_final (rs : list rule) (fuel : nat) (n : list N) : list N :=
+  match fuel with
+  | O => n
+  | S f => match last_def n rs with
+           | Some r => match alias_sup r with Some (tg, false) => alias_final rs f tg | _ => n end
+           | None => n
+           end
+  end.
+
+Definition kx_rule (c : cfg) (t : tree) (r : rule) : Kinds.rule :=
+  let names := kinds_names c t in
+  {| Kinds.r_attrs := match flat_map (flat_map asg_ops_rexpr) (r_body r) with [] => false | _ => true end;
+     Kinds.r_body :=
+       match alias_sup r with
+       | Some (tg, false) =>
+           match index_of (alias_final (t_rules t) (length (t_rules t)) tg) names with
+           | Some k => Kinds.Alias k
+           | None => Kinds.Body Kinds.Term
+           end
+       | _ => Kinds.Body (kcollapse Kinds.Choice (map (fun s => kcollapse Kinds.Seq (map (kx_rexpr names) s)) (r_body r)))
+       end |}.
+
+Definition to_kinds (c : cfg) (t : tree) : list Kinds.rule :=
+  map (kx_rule c t) (effective (t_rules t)) ++ map (fun _ => Kinds.default_rule) (c_base_names c).
+
+Definition rule_kinds_fixpoint (c : cfg) (t : tree) : outcome :=
+  match Kinds.determine_types (to_kinds c t) with
+  | Some _ => Ok
+  | None => Crash n_RecursionError          (* never: C23_rule_kind_fixpoint_terminates *)
+  end.
+
 Definition determine_rule_types (c : cfg) (o : oracles) (fuel : nat) (t : tree) : outcome :=
-  if c_ruletype_by_class c then Ok
-  else first_error (map (ruletype_target c o t fuel) (effective (t_rules t))).
+  seq_out (if c_ruletype_by_class c then Ok
+           else first_error (map (ruletype_target c o t fuel) (effective (t_rules t))))
+          (rule_kinds_fixpoint c t).
 
 (* ---------------------------------------------------------------- second pass: _resolve_cls_refs *)
 (* attribute types as visit_assignment records them *)
@@ -536,7 +653,7 @@ Definition attrs_rule (r : rule) : list (list N * list N) :=
 
 (* metamodel[cls_name] inside the try of _resolve_cls *)
 Definition resolve_cls_name (c : cfg) (o : oracles) (t : tree) (n : list N) : outcome :=
-  let keyerror := handled (c_keyerror_handler c) WClsRef KKey KKey in
+  let keyerror := out_of (dispatch (c_keyerror_clauses c) exc_KeyError WClsRef) in
   match split_dot n with
   | Some (ns, nm) =>
       match qualified c o (t_stmts t) ns nm with
@@ -557,23 +674,27 @@ Definition cls_errors (c : cfg) (o : oracles) (t : tree) : list outcome :=
 Definition resolve_cls_refs (c : cfg) (o : oracles) (t : tree) : outcome := first_error (cls_errors c o t).
 
 (* ---------------------------------------------------------------- metamodel_from_str *)
-Definition seq_out (a : outcome) (b : outcome) : outcome := match a with Ok => b | _ => a end.
 
-Definition front (c : cfg) (o : oracles) (fuel : nat) (g : ginput) : outcome :=
+Definition front (c : cfg) (o : oracles) (user : list (list N)) (fuel : nat) (g : ginput) : outcome :=
   match g with
-  | GSyntaxError => handled (c_nomatch_handler c) WParse KNoMatch KNoMatch
+  | GParseRaises e => out_of (dispatch (c_nomatch_clauses c) e WParse)
   | GTree t =>
       seq_out (visit_stmts (t_stmts t))
-      (seq_out (run_events c o [] (events t))
+      (seq_out (run_events c o user init_state (events t))
       (seq_out (resolve_rule_refs c o fuel t)
       (seq_out (determine_rule_types c o fuel t)
-               (resolve_cls_refs c o t))))
+      (seq_out (resolve_cls_refs c o t)
+               (validate_user_classes c user (t_rules t))))))
   end.
 
 Definition has_import (g : ginput) : bool :=
   match g with
-  | GSyntaxError => false
+  | GParseRaises _ => false
   | GTree t => existsb (fun s => match s with SImport => true | _ => false end) (t_stmts t)
   end.
 
-Definition nrules (g : ginput) : nat := match g with GSyntaxError => O | GTree t => length (t_rules t) end.
+(* the parser raises nothing but NoMatch (false for deeply nested texts: known finding interp-recursion-limit) *)
+Definition parse_wf (g : ginput) : Prop :=
+  match g with GParseRaises e => In n_NoMatch (x_mro e) | GTree _ => True end.
+
+Definition nrules (g : ginput) : nat := match g with GParseRaises _ => O | GTree t => length (t_rules t) end.
